@@ -31,12 +31,14 @@ def run_all(cfgs, casedir, variant, prefix):
             viol.append({"detail": f"solve or the reference loop raised {type(ex).__name__}: {str(ex)[:300]}", "case": cfg})
             continue
         import math
-        if any(not math.isfinite(x) for x in ref["val_losses"]):
-            dist["skipped_non_finite_validation_loss"] = dist.get("skipped_non_finite_validation_loss", 0) + 1
-            continue
-        cases.append(S.case_term(cid, cfg, ref, tok)); meta[cid] = cfg
         for f in fails:
             viol.append({"detail": f, "case": cfg})
+        if any(not math.isfinite(x) for x in ref["val_losses"]):
+            # a criterion that is not a finite number has no image in the model's rational arithmetic: the run is compared
+            # with the textbook loop only (direct oracle above), no Coq case is written
+            dist["non_finite_validation_loss_oracle_only"] = dist.get("non_finite_validation_loss_oracle_only", 0) + 1
+            continue
+        cases.append(S.case_term(cid, cfg, ref, tok)); meta[cid] = cfg
         for k in ("kind", "opt"):
             dist[f"{k}={cfg[k]}"] = dist.get(f"{k}={cfg[k]}", 0) + 1
         for k in ("param_gen", "obs_gen", "resume", "validation", "inject"):
